@@ -19,6 +19,10 @@
 /* log facts that hold whenever no column is being processed (head of the loop over the right-hand sides, exit) */
 #define IDLE (g_phase == 0 && g_corr == 0 && g_round == 0)
 #define STEADY (g_xerbla_calls == 0 && g_n_alloc == 4 && g_n_free == 0 && in_info == 0 && g_work == work && 0 <= g_max_corr && g_max_corr <= 5)
-#define COUNTS(j, c) (0 <= (j) && (j) <= 2 && 0 <= (c) && (c) <= 5 && g_copy_calls == g_gemv_calls && g_copy_calls == g_axpy_calls + (j) && 0 <= g_axpy_calls && g_axpy_calls <= 5 * (j) + (c) && 0 <= g_gstrs_calls && g_gstrs_calls <= (5 + MAXROUNDS) * (j) + (c) && 0 <= g_lacon_calls && g_lacon_calls <= (MAXROUNDS + 1) * (j))
+#define COUNTS(j, c) (0 <= (j) && (j) <= 2 && 0 <= (c) && (c) <= 5 && 0 <= g_axpy_calls && g_axpy_calls <= 5 * (j) + (c) && 0 <= g_gstrs_calls && g_gstrs_calls <= (5 + MAXROUNDS) * (j) + (c) && 0 <= g_lacon_calls && g_lacon_calls <= (MAXROUNDS + 1) * (j) && 0 <= g_copy_calls && g_copy_calls <= 12 && g_copy_calls == g_gemv_calls && g_copy_calls == g_axpy_calls + (j))
 #define IWORK_OK(q) FA(q, CAP, q < in_A.nrow ==> (0 <= iwork[q] && iwork[q] <= NZ))
 #define COLRANGE(i, k) (in_colptr[k] <= i && i <= in_colptr[k+1])
+/* column c of X is zero / ferr[g_c] still holds the estimate ?lacon_ returned for column g_c (C13 d: "divided by max |x_i| unless that is zero") */
+#define XZERO(c, q) FA(q, CAP, q < in_A.nrow ==> in_Xval[q + (c) * in_Xstore.lda] == 0)
+#define FERR_KEPT(q) (XZERO(g_c, q) ==> in_ferr[g_c] == g_est_c)
+#define SCALES_FINITE(q) FA(q, CAP, -SCALE_MAX <= in_R[q] && in_R[q] <= SCALE_MAX && -SCALE_MAX <= in_C[q] && in_C[q] <= SCALE_MAX)
